@@ -43,7 +43,9 @@ Prog1(e, composite, splice) ==
       << SPrint(Arr(<<e>>)), SPrint(Arr(<<e, Num(1), e>>)), SPrint(Obj(<<"k">>, <<e>>)), SPrint(Arr(<<Arr(<<e>>), Obj(<<"k">>, <<Arr(<<e>>)>>)>>)),
          SVar("a", Arr(<<Num(0), Num(0)>>)), SExpr(IAsg(Id("a"), Num(1), e)), SPrint(Id("a")),
          SVar("o", Obj(<<"z">>, <<Num(0)>>)), SExpr(PAsg(Id("o"), "k", e)), SPrint(Id("o")), SPrint(Prop(Id("o"), "k")), SPrint(Idx(Id("a"), Num(1))),
-         SFun("id", <<"x">>, <<SReturn(Id("x"))>>), SPrint(Call(Id("id"), <<e>>)), SPrint(Call(Id("push"), <<Arr(<<>>), e>>)) >>
+         SFun("id", <<"x">>, <<SReturn(Id("x"))>>), SPrint(Call(Id("id"), <<e>>)), SPrint(Call(Id("push"), <<Arr(<<>>), e>>)),
+         SVar("sh", Arr(<<e, Num(2)>>)), SPrint(Arr(<<Id("sh"), Id("sh"), Arr(<<Id("sh")>>)>>)), SPrint(Obj(<<"p", "q">>, <<Id("sh"), Id("sh")>>)),    \* shared, not cyclic
+         SVar("so", Obj(<<"k">>, <<e>>)), SPrint(Arr(<<Id("so"), Id("so")>>)), SPrint(Obj(<<"p", "q">>, <<Id("so"), Arr(<<Id("so")>>)>>)) >>
       ELSE <<>>)
 IsPlainStr(v) == v[2] # "str" \/ \A c \in {v[3].v.s[i] : i \in 1..Len(v[3].v.s)} : c \notin {9, 10, 32}
 Cases == SetToSeq({ [t |-> Prog1(v[3], IsPlainStr(v), v[2] \notin {"nil", "bool"}), c |-> v[2], key |-> "print:" \o v[1]] : v \in Values })
